@@ -131,3 +131,56 @@ def errdrop_scan(rule, crate, fn_pred, markers, exceptions, what):
                                                fn.loc(t.get("line")))
                         break
     return prop_sites
+
+
+def origin(fn, defs, op, depth=0):
+    """Trace an operand back through copies, moves, reborrows, unsizing casts and
+    transparent derefs to what produced it.
+
+    Returns one of
+      {"k": "const", "op": op}
+      {"k": "call", "t": terminator, "block": b}
+      {"k": "place", "pl": place}          (a projection of some local that is not a plain copy)
+      {"k": "param", "l": local}
+      {"k": "agg", "rv": rvalue}
+      {"k": "other", "rv": rvalue} / {"k": "multi", "l": local}
+    """
+    while depth < 24:
+        depth += 1
+        if op.get("c") == "const":
+            return {"k": "const", "op": op}
+        if op.get("c") not in ("copy", "move"):
+            return {"k": "other", "rv": op}
+        pl = op["pl"]
+        if pl["p"] and pl["p"] != ["*"]:
+            return {"k": "place", "pl": pl}
+        l = pl["l"]
+        if 1 <= l <= fn.arg_count:
+            return {"k": "param", "l": l}
+        ds = defs.get(l, [])
+        if len(ds) != 1:
+            return {"k": "multi", "l": l}
+        (b, si, d) = ds[0]
+        if si == "term":
+            return {"k": "call", "t": d, "block": b}
+        k = d["k"]
+        if k == "use":
+            op = d["op"]
+            continue
+        if k in ("ref", "rawptr"):
+            rp = d["pl"]
+            if not rp["p"] or rp["p"] == ["*"]:
+                op = {"c": "copy", "pl": {"l": rp["l"], "p": []}}
+                continue
+            return {"k": "place", "pl": rp}
+        if k == "cast" and (d["ck"].startswith("PointerCoercion") or d["ck"].startswith("PtrToPtr")):
+            op = d["op"]
+            continue
+        if k == "agg":
+            return {"k": "agg", "rv": d}
+        return {"k": "other", "rv": d}
+    return {"k": "other", "rv": None}
+
+
+def field_names(pl):
+    return [e.get("n") for e in pl["p"] if isinstance(e, dict) and "f" in e]
